@@ -19,7 +19,7 @@ RULE = ("(1) uniform-regime files in each of 48 dialect points (four key/value s
         "-> reference weighted vote (skipped when the checklines and checklines+1 window conventions disagree); "
         "(4) supplied dialects (trailing/repeated/order variations) used verbatim for reporting and printing; "
         "non-trivial = >= 3 lines (1,4) / both values present in the window (3); distinct by file text + checklines")
-REQUIRED = ["uniform files: dialect compared", "infer_dialect strings compared", "routing observed: gtf", "routing observed: gff",
+REQUIRED = ["dialect compared after an update written in another spelling", "uniform files with a bare ';' inside quoted values", "uniform files: dialect compared", "infer_dialect strings compared", "routing observed: gtf", "routing observed: gff",
             "mixtures decided by vote", "mixtures with exact tie", "supplied dialects compared", "re-ordered feature lists compared",
             "supplied format decides the import semantics (iterator data)"]
 ASSUMPTIONS = [
@@ -57,6 +57,8 @@ def execute(ctx, case):
             routing(ctx, case)
         elif kind == "mixture":
             mixture(ctx, case)
+        elif kind == "after_update":
+            after_update(ctx, case)
         elif kind == "supplied":
             supplied(ctx, case)
         elif kind == "string":
@@ -149,6 +151,56 @@ def uniform(ctx, case):
             ctx.violation(case, {"why": "GFF-dialect file imported with GTF semantics (derived features present)", "text": text})
     finally:
         for p in (src, dbfn):
+            if os.path.exists(p):
+                os.unlink(p)
+
+
+def after_update(ctx, case):
+    """The dialect a database reports is the dialect of the input it was created from - also after features written in
+    another spelling were added through update() and the file was opened again."""
+    import gffutils
+
+    D, D2, items, items2 = case["D"], case["D2"], case["items"], case["items2"]
+    recs = [it["rec"] for it in items if it["t"] == "feat"]
+    text, text2 = F.text_of(items, D), F.text_of(items2, D2)
+    exp = M.gffutils_dialect(D, [k for k, _ in recs[0]["attrs"]])
+    dbfn = ctx.tmp(".db")
+    try:
+        try:
+            db = gffutils.create_db(text, dbfn, from_string=True, merge_strategy="create_unique")
+            if diff_dialect(db.dialect, exp):
+                ctx.skip("after_update: the base import does not report the written dialect (judged by the uniform class)")
+                return
+            how = case["how"]
+            if how == "string":
+                db.update(text2, from_string=True, merge_strategy="create_unique", make_backup=False)
+            elif how == "path":
+                p = write(ctx, text2)
+                try:
+                    db.update(p, merge_strategy="create_unique", make_backup=False)
+                finally:
+                    os.unlink(p)
+            else:
+                from gffutils.iterators import DataIterator
+                db.update(DataIterator(text2, from_string=True), merge_strategy="create_unique", make_backup=False)
+        except Exception as ex:
+            ctx.skip("after_update: create/update raised %s (only the reported dialect is judged here)" % type(ex).__name__)
+            return
+        ctx.mon("dialect compared after an update written in another spelling")
+        bad = diff_dialect(db.dialect, exp)
+        db.conn.close()
+        if bad:
+            ctx.violation(case, {"why": "the updating handle's dialect changed through update()", "diff(got,expected)": bad, "text": text, "update": text2})
+            return
+        db2 = gffutils.FeatureDB(dbfn)
+        bad = diff_dialect(db2.dialect, exp)
+        db2.conn.close()
+        if bad:
+            ctx.violation(case, {"why": "after update() with input in another spelling and reopening, FeatureDB.dialect is no longer "
+                                        "the dialect of the input the database was created from", "diff(got,expected)": bad,
+                                 "text": text, "update": text2, "how": case["how"]})
+    finally:
+        for p in (dbfn, dbfn + ".bak"):
             if os.path.exists(p):
                 os.unlink(p)
 
@@ -452,6 +504,15 @@ def run(ctx):
         D = rng.choice(pts)
         n = rng.choice([1, 2, 3, 5, 11, 12, 25])
         recs = F.uniform_records(rng, D, n, ids="dups", coords=False)
+        if D["fmt"] == "gtf" and D["sep"] in ("; ", " ; ") and rng.random() < 0.25:
+            # quoted values may hold a bare ';' (no blank next to it): under '; ' and ' ; ' it is text, not a separator -
+            # also inside the first attribute of a line, where inference starts
+            for rec in recs:
+                for kv in rec["attrs"][:1 if rng.random() < 0.6 else 3]:
+                    for j, v in enumerate(kv[1]):
+                        if len(v) >= 2 and " " not in v[:2] and " " not in v[-2:]:
+                            kv[1][j] = v[:1] + ";" + v[1:]
+            ctx.mon("uniform files with a bare ';' inside quoted values")
         items = F.decorate(rng, recs)
         ck = rng.choice(CKS)
         case = {"kind": "uniform", "D": D, "items": items, "checklines": ck}
@@ -462,6 +523,20 @@ def run(ctx):
         for rec in recs[:3]:
             c2 = {"kind": "string", "D": D, "attrs": rec["attrs"]}
             execute(ctx, c2)
+    # (1b) the reported dialect survives updates written in another spelling of the same format family
+    for _ in range(ctx.budget(150, 12000)):
+        D = rng.choice(pts)
+        D2 = dict(D)
+        D2["sep"] = rng.choice([x for x in M.SEPS if x != D["sep"]])
+        D2["trailing"] = not D["trailing"] if rng.random() < 0.5 else D["trailing"]
+        D2["repeated"] = not D["repeated"] if rng.random() < 0.3 else D["repeated"]
+        recs = F.uniform_records(rng, D, rng.choice([2, 3, 5, 12]), ids="dups", coords=True)
+        recs2 = F.uniform_records(rng, D2, rng.choice([1, 2, 5, 12]), ids="dups", coords=True)
+        case = {"kind": "after_update", "D": D, "D2": D2, "items": F.decorate(rng, recs, directives=False),
+                "items2": F.decorate(rng, recs2, directives=False), "how": rng.choice(["string", "path", "iterator"])}
+        execute(ctx, case)
+        ctx.case(("after_update", F.text_of(case["items"], D), F.text_of(case["items2"], D2), case["how"]), True,
+                 cls="dialect after update fmt=%s" % D["fmt"])
     # single strings incl. sparse shapes
     for _ in range(ctx.budget(3000, 300000)):
         D = rng.choice(pts)
